@@ -35,6 +35,33 @@ NCPU = int(os.environ.get("VERIF_NCPU", "0")) or (os.cpu_count() or 1)
 
 
 # ---------------------------------------------------------------------------
+class CallTimeout(Exception):
+    pass
+
+
+class time_limit:
+    """bounded horizon for one call into the code under test: a driver loop that never meets its stop criterion must
+    become an observation (exception), not a hung explorer.  Uses ITIMER_REAL, valid in the main thread of each worker."""
+
+    def __init__(self, seconds):
+        self.seconds = seconds
+
+    def _raise(self, *a):
+        raise CallTimeout("call did not return within %gs" % self.seconds)
+
+    def __enter__(self):
+        import signal
+        self._old = signal.signal(signal.SIGALRM, self._raise)
+        signal.setitimer(signal.ITIMER_REAL, self.seconds)
+
+    def __exit__(self, *a):
+        import signal
+        signal.setitimer(signal.ITIMER_REAL, 0)
+        signal.signal(signal.SIGALRM, self._old)
+        return False
+
+
+# ---------------------------------------------------------------------------
 # json helpers
 def jsonable(x):
     import numpy as np
